@@ -45,6 +45,8 @@ pub enum Error {
     )]
     Machine(machine::Error, ExBudget, Vec<Trace>),
 
+    #[error("PlutusV3 script did not evaluate to unit")]
+    InvalidReturnValue(ExBudget, Vec<Trace>),
     #[error("native script can't be executed in phase-two")]
     NativeScriptPhaseTwo,
     #[error("can't eval without redeemers")]
